@@ -366,6 +366,13 @@ impl Check for C02 {
                 emit(Case::new("wide", t));
             }
         }
+        // (1d) documents of a few MiB with multi-byte characters across every multiple of 256 KiB,
+        // well-formed and with one ill-formed sequence there
+        for j in 0..crate::gen::bigutf8::VARIANTS {
+            if g.mine(7100 + j as u64) && (g.scale >= 0.5 || j % 8 == 0) {
+                emit(Case::with("big-utf8", vec![], &[j as i64]));
+            }
+        }
         // (2) generated documents and mutations
         let mut r = g.rng(2);
         let n = g.count(120_000, 10_000_000);
@@ -381,6 +388,13 @@ impl Check for C02 {
         }
     }
     fn exec(&self, ctx: &mut Ctx, c: &Case) {
+        if c.entry == "big-utf8" {
+            let (d, valid) = crate::gen::bigutf8::make(c.p(0) as usize);
+            check_text(ctx, &d);
+            ctx.class(if valid { "gen:big-utf8-valid" } else { "gen:big-utf8-invalid" });
+            ctx.sample("big-utf8");
+            return;
+        }
         check_text(ctx, &c.input);
         match c.entry.as_str() {
             "tok" => ctx.sample("token-sequence"),
@@ -398,6 +412,6 @@ impl Check for C02 {
         }
     }
     fn required_classes(&self, _b: &str, _t: Tier) -> Vec<&'static str> {
-        vec!["text:valid-full", "text:valid-skip-only", "text:invalid-grammar", "text:invalid-utf8", "gen:number-range"]
+        vec!["text:valid-full", "text:valid-skip-only", "text:invalid-grammar", "text:invalid-utf8", "gen:number-range", "gen:big-utf8-valid", "gen:big-utf8-invalid"]
     }
 }
